@@ -494,7 +494,22 @@ func init() {
 	}))
 
 	// ---- hashes -------------------------------------------------------------------------
+	// the block functions are assembly (or dispatch to assembly on CPU features); the portable
+	// Go body in the same package is the definition and is what gets encoded
+	reg("crypto/md5.block", func(fr *frame, args []value) value {
+		return fr.i.callByName(fr, "crypto/md5.blockGeneric", args)
+	})
+	reg("crypto/sha1.block", func(fr *frame, args []value) value {
+		return fr.i.callByName(fr, "crypto/sha1.blockGeneric", args)
+	})
+	reg("crypto/internal/boring/sig.StandardCrypto", func(fr *frame, args []value) value { return nil })
+	reg("crypto/internal/boring/sig.BoringCrypto", func(fr *frame, args []value) value { return nil })
+	reg("crypto/internal/boring/sig.FIPSOnly", func(fr *frame, args []value) value { return nil })
+	reg("crypto/internal/fips140only.Enforced", func(fr *frame, args []value) value { return false })
 	reg("crypto/md5.Sum", func(fr *frame, args []value) value {
+		if !allConcBytes(args[0]) {
+			return useBody{}
+		}
 		b := concBytes(fr, args[0], "md5.Sum")
 		sum := md5.Sum(b)
 		out := make(array, len(sum))
@@ -504,6 +519,9 @@ func init() {
 		return out
 	})
 	reg("crypto/sha1.Sum", func(fr *frame, args []value) value {
+		if !allConcBytes(args[0]) {
+			return useBody{}
+		}
 		b := concBytes(fr, args[0], "sha1.Sum")
 		sum := sha1.Sum(b)
 		out := make(array, len(sum))
@@ -517,6 +535,18 @@ func init() {
 func nil2(f externalFn) externalFn { return f }
 
 var errorIface = types.Universe.Lookup("error").Type().Underlying().(*types.Interface)
+
+// useBody is returned by an external that declines the call: the Go body is interpreted instead.
+type useBody struct{}
+
+func allConcBytes(v value) bool {
+	for _, e := range v.([]value) {
+		if _, ok := e.(uint8); !ok {
+			return false
+		}
+	}
+	return true
+}
 
 func concBytes(fr *frame, v value, what string) []byte {
 	sl := v.([]value)
